@@ -70,7 +70,7 @@ def run(ctx):
     ctx.assumptions += ['see C01; "a Collection re-iterates non-destructively" and "Mapping.__getitem__ on a present '
                         'key does not mutate" are the ABC contracts, assumed',
                         'argument identity/forwarding is C04']
-    regenerate(ctx)
+    ctx.safe_regenerate(regenerate)
     proof_err = c01.prove_core(ctx, PROP)
     failures = 0
     try:
